@@ -2,7 +2,113 @@
 from drvutil import read_payload, emit, f2b, b2f, exc_enum, assert_scratch
 from jellyfysh.base.time import Time, inf
 
+import copy
+import pickle
+
 assert_scratch()
+GARBAGE = (12345.0, 0.8125)
+
+
+def _clone(t, how):
+    if how == "copy":
+        return copy.copy(t)
+    if how == "deepcopy":
+        return copy.deepcopy(t)
+    if how == "pickle":
+        return pickle.loads(pickle.dumps(t))
+    if how == "dill":
+        import dill
+        return dill.loads(dill.dumps(t))
+    raise ValueError(how)
+
+
+def run_hist(op):
+    """["hist", steps, [q2, r2], d]: build ONE Time object through a history of constructions, update() calls and
+    copies, then apply every operation to the final object.  Sources of update() are overwritten afterwards and
+    originals of copies are overwritten, so aliasing would show."""
+    t = None
+    alias_ok = 1
+    for st in op[1]:
+        k = st[0]
+        if k == "new":
+            t = Time(b2f(st[1]), b2f(st[2]))
+        elif k == "from":
+            t = Time.from_float(b2f(st[1]))
+        elif k in ("upd", "updadd", "updfrom", "updinf"):
+            if k == "upd":
+                src = Time(b2f(st[1]), b2f(st[2]))
+            elif k == "updadd":
+                src = Time(b2f(st[1]), b2f(st[2])) + b2f(st[3])
+            elif k == "updfrom":
+                src = Time.from_float(b2f(st[1]))
+            else:
+                src = inf
+            before = (f2b(src.quotient), f2b(src.remainder))
+            r = t.update(src)
+            if r is not None or (f2b(src.quotient), f2b(src.remainder)) != before:
+                alias_ok = 0
+            if src is not inf:
+                src.update(Time(*GARBAGE))      # must not reach t
+        elif k in ("copy", "deepcopy", "pickle", "dill"):
+            old = t
+            t = _clone(old, k)
+            if t is old or type(t) is not Time:
+                alias_ok = 0
+            old.update(Time(*GARBAGE))          # must not reach the copy
+        else:
+            raise ValueError("unknown step " + str(k))
+    if (f2b(inf.quotient), f2b(inf.remainder)) != (f2b(float("inf")), f2b(float("inf"))):
+        alias_ok = 0
+    b = Time(b2f(op[2][0]), b2f(op[2][1]))
+    d = b2f(op[3])
+    res = [f2b(t.quotient), f2b(t.remainder),
+           int(t == b), int(t != b), int(t < b), int(t > b), int(t <= b), int(t >= b),
+           int(b == t), int(b != t), int(b < t), int(b > t), int(b <= t), int(b >= t)]
+    s = t + d
+    res += [f2b(s.quotient), f2b(s.remainder), f2b(t - b), f2b(b - t), alias_ok]
+    # and the object is still what it was (operations do not change it)
+    res += [f2b(t.quotient), f2b(t.remainder)]
+    return res
+
+
+def run_heappurge(op):
+    """["heappurge", times, victim, stale, new]: one event per handler (times[i] for handler i), the victim handler
+    additionally pushed and trashed several stale events before; then its lazy-deletion counter is put beyond the range
+    of a C unsigned int, so that the next push_event purges all its entries (delete_events) and re-inserts; finally the
+    heap is drained.  Returns the order of handler indices."""
+    from jellyfysh.scheduler.heap_scheduler import HeapScheduler
+
+    class H(object):
+        def __init__(self, i):
+            self.i = i
+    sch = HeapScheduler()
+    times, victim, stale, new = op[1], int(op[2]), op[3], op[4]
+    hs = [H(i) for i in range(len(times))]
+    v = hs[victim]
+    k = 0
+    for i, (q, r) in enumerate(times):
+        if i != victim:
+            sch.push_event(Time(b2f(q), b2f(r)), hs[i])
+        if k < len(stale):                       # interleave the victim's stale events
+            sch.push_event(Time(b2f(stale[k][0]), b2f(stale[k][1])), v)
+            sch.trash_event(v)
+            k += 1
+    while k < len(stale):
+        sch.push_event(Time(b2f(stale[k][0]), b2f(stale[k][1])), v)
+        sch.trash_event(v)
+        k += 1
+    sch._minimal_valid_counter[v] = 2 ** 32 + 5      # what 2^32 trash_event calls lead to
+    sch.push_event(Time(b2f(new[0]), b2f(new[1])), v)
+    if sch._minimal_valid_counter[v] != 0:
+        return ["ERR", "no purge happened (counter %r)" % sch._minimal_valid_counter[v]]
+    order = []
+    for _ in hs:
+        h = sch.get_succeeding_event()
+        order.append(h.i)
+        sch.trash_event(h)
+    return order
+
+
 ops = read_payload()["ops"]
 out = []
 for op in ops:
@@ -47,6 +153,10 @@ for op in ops:
                 order.append(h.i)
                 sch.trash_event(h)
             out.append(order)
+        elif k == "hist":
+            out.append(run_hist(op))
+        elif k == "heappurge":
+            out.append(run_heappurge(op))
         elif k == "inf":
             out.append([f2b(inf.quotient), f2b(inf.remainder)])
         else:
